@@ -46,6 +46,9 @@ def main(argv=None):
     seed = a.seed if a.seed is not None else int(os.environ.get("VERIF_SEED", "0") or 0)
     pid_ = a.pid.upper()
     ctx = core.Ctx(pid_, a.tier, seed)
+    if a.replay:
+        a.replay = os.path.abspath(a.replay)
+        ctx.replay_mode = True
     ctx.only = set(a.only.split(",")) if a.only else None
     try:
         core.import_cryocat()
